@@ -16,10 +16,16 @@ pub struct DcpsTopicListener {
 }
 
 impl DcpsTopicListener {
-    pub fn new(_listener: impl TopicListener + Send + 'static) -> Self {
+    pub fn new(mut listener: impl TopicListener + Send + 'static) -> Self {
         let (sender, listener_receiver) = mpsc_channel();
-        let task =
-            Box::pin(async move { while let Some(_m) = listener_receiver.receive().await {} });
+        let task = Box::pin(async move {
+            while let Some(m) = listener_receiver.receive().await {
+                // InconsistentTopic is the only status of a topic; nothing else is ever sent to this task
+                if let ListenerMail::InconsistentTopic { the_topic, status } = m {
+                    listener.on_inconsistent_topic(the_topic, status).await;
+                }
+            }
+        });
         Self { sender, task }
     }
 
